@@ -56,6 +56,8 @@ func checkC02(ctx *Ctx, r *Report) {
 	c02GoBareTypeNames(ctx, r)
 	c02GoAliasConstructor(ctx, r)
 	c02GoRuntimeDefines(ctx, r)
+	c02GoTemplateIdentifiersEscaped(ctx, r)
+	c02PythonMethodNamesEscaped(ctx, r)
 }
 
 // kindConsts: the constants of ast.Kind / ast.ScalarKind.
@@ -2386,4 +2388,212 @@ func c02GoRuntimeDefines(ctx *Ctx, r *Report) {
 	r.Count("runtime symbols defined by the Go runtime jenny", len(defined))
 	r.Floor("runtime symbols written by the Go jenny", 4)
 	r.Floor("runtime symbols defined by the Go runtime jenny", 4)
+}
+
+// c02GoTemplateIdentifiersEscaped: an argument of a generated Go method takes its name from the schema. The method
+// bodies come from the builder templates, which bind names of their own: the receiver (`func (builder *…`), local
+// variables declared by the literal text (`err :=`, `var errs`), the runtime package (`cog.`) and the builtin functions
+// the text calls (`make(`, `append(`, `len(`). An argument with one of those names shadows it. The names are read from
+// the templates; each has to be known to the predicate escapeVarName consults.
+func c02GoTemplateIdentifiersEscaped(ctx *Ctx, r *Report) {
+	p := ctx.Pkg("internal/jennies/golang")
+	ts, err := loadTemplates(ctx, "golang")
+	if p == nil || err != nil {
+		r.Undecided("golang jenny / templates not loaded: %v", err)
+		return
+	}
+	info := p.TypesInfo
+	// the names escapeVarName escapes: string literals of the predicates it calls
+	esc := ctx.LookupFunc("internal/jennies/golang", "escapeVarName")
+	fd, _ := ctx.DeclOf(esc)
+	if fd == nil {
+		r.Undecided("anchor lost: golang.escapeVarName")
+		return
+	}
+	escaped := map[string]bool{}
+	ast.Inspect(fd.Body, func(m ast.Node) bool {
+		c, ok := m.(*ast.CallExpr)
+		if !ok {
+			return true
+		}
+		fn := callee(info, c)
+		if fn == nil || fn.Pkg() != p.Types {
+			return true
+		}
+		if pfd, _ := ctx.DeclOf(fn); pfd != nil && pfd.Body != nil {
+			ast.Inspect(pfd.Body, func(q ast.Node) bool {
+				if lit, ok := q.(*ast.BasicLit); ok && lit.Kind == token.STRING {
+					if tv, ok := info.Types[lit]; ok && tv.Value != nil {
+						escaped[constant.StringVal(tv.Value)] = true
+					}
+				}
+				return true
+			})
+		}
+		return true
+	})
+	bound := map[string]string{}
+	recv := regexp.MustCompile(`func \(([a-z][A-Za-z0-9]*) \*?`)
+	decl := regexp.MustCompile(`(?m)(?:^|[\s;{])([a-z][A-Za-z0-9]*(?:\s*,\s*[a-z][A-Za-z0-9]*)*)\s*:=`)
+	vard := regexp.MustCompile(`\bvar ([a-z][A-Za-z0-9]*)\b`)
+	builtin := regexp.MustCompile(`(?:^|[^.\w])(append|cap|copy|delete|len|make|new|panic)\(`)
+	pkgUse := regexp.MustCompile(`(?:^|[^.\w])(cog)\.[A-Z]`)
+	for _, name := range ts.names() {
+		if !strings.Contains(ts.file[name], "/templates/builders/") {
+			continue
+		}
+		walkTmpl(ts.trees[name].Root, func(n parse.Node) bool {
+			t, ok := n.(*parse.TextNode)
+			if !ok {
+				return true
+			}
+			txt := string(t.Text)
+			where := ts.posOf(ctx, name, t)
+			add := func(id string) {
+				if _, ok := bound[id]; !ok {
+					bound[id] = where
+				}
+			}
+			for _, m := range recv.FindAllStringSubmatch(txt, -1) {
+				add(m[1])
+			}
+			for _, m := range decl.FindAllStringSubmatch(txt, -1) {
+				for _, id := range strings.Split(m[1], ",") {
+					add(strings.TrimSpace(id))
+				}
+			}
+			for _, m := range vard.FindAllStringSubmatch(txt, -1) {
+				add(m[1])
+			}
+			for _, m := range builtin.FindAllStringSubmatch(txt, -1) {
+				add(m[1])
+			}
+			for _, m := range pkgUse.FindAllStringSubmatch(txt, -1) {
+				add(m[1])
+			}
+			return true
+		})
+	}
+	var names []string
+	for k := range bound {
+		names = append(names, k)
+	}
+	sort.Strings(names)
+	for _, k := range names {
+		r.Check(escaped[k], "kinds/go-template-identifiers-escaped", "golang.escapeVarName escapes "+k, token.NoPos, bound[k]+": bound or called by the builder templates, escaped when a field has that name",
+			bound[k]+": the builder templates bind or call `"+k+"` in the generated methods and escapeVarName lets an argument of that name through: a field named `"+k+"` gives an option whose argument shadows it — the builder package does not compile while the run succeeds")
+	}
+	r.Count("identifiers bound or called by the Go builder templates", len(names))
+	r.Floor("identifiers bound or called by the Go builder templates", 4)
+}
+
+// c02PythonMethodNamesEscaped: a Python option is a method named after its field, defined in the class body. The
+// names that body relies on afterwards are (1) the annotation types the type formatter writes — the results of
+// formatScalarKind, `list[`, `dict[`, `typing.` — evaluated when each following method is defined, and (2) the methods
+// the builder template defines itself (`def build(`). A method with one of those names shadows it. The names are read
+// from the source; each has to be known to the predicates escapeFunctionName consults.
+func c02PythonMethodNamesEscaped(ctx *Ctx, r *Report) {
+	p := ctx.Pkg("internal/jennies/python")
+	ts, err := loadTemplates(ctx, "python")
+	if p == nil || err != nil {
+		r.Undecided("python jenny / templates not loaded: %v", err)
+		return
+	}
+	info := p.TypesInfo
+	esc := ctx.LookupFunc("internal/jennies/python", "escapeFunctionName")
+	fd, _ := ctx.DeclOf(esc)
+	if fd == nil {
+		r.Undecided("anchor lost: python.escapeFunctionName")
+		return
+	}
+	escaped := map[string]bool{}
+	ast.Inspect(fd.Body, func(m ast.Node) bool {
+		c, ok := m.(*ast.CallExpr)
+		if !ok {
+			return true
+		}
+		fn := callee(info, c)
+		if fn == nil || fn.Pkg() != p.Types {
+			return true
+		}
+		if pfd, _ := ctx.DeclOf(fn); pfd != nil && pfd.Body != nil {
+			ast.Inspect(pfd.Body, func(q ast.Node) bool {
+				if lit, ok := q.(*ast.BasicLit); ok && lit.Kind == token.STRING {
+					if tv, ok := info.Types[lit]; ok && tv.Value != nil {
+						escaped[constant.StringVal(tv.Value)] = true
+					}
+				}
+				return true
+			})
+		}
+		return true
+	})
+	needed := map[string]string{}
+	ident := regexp.MustCompile(`^[a-z][a-z0-9_]*$`)
+	// (1) annotation types
+	if fn := ctx.LookupMethod("internal/jennies/python", "typeFormatter", "formatScalarKind"); fn != nil {
+		if sfd, _ := ctx.DeclOf(fn); sfd != nil {
+			ast.Inspect(sfd.Body, func(m ast.Node) bool {
+				rs, ok := m.(*ast.ReturnStmt)
+				if !ok || len(rs.Results) != 1 {
+					return true
+				}
+				if tv, ok := info.Types[rs.Results[0]]; ok && tv.Value != nil && tv.Value.Kind() == constant.String {
+					if v := constant.StringVal(tv.Value); ident.MatchString(v) {
+						needed[v] = ctx.Pos(rs.Pos()) + " (annotation written by formatScalarKind)"
+					}
+				}
+				return true
+			})
+		}
+	}
+	// `list[%s]`, `dict[str, typing.Any]`: a subscript holding a type, not `data["%s"]`
+	generic := regexp.MustCompile(`^([a-z][a-z0-9_]*)\[(?:%s|[a-z]+[,\]]|typing\.)`)
+	for _, file := range p.Syntax {
+		ast.Inspect(file, func(m ast.Node) bool {
+			lit, ok := m.(*ast.BasicLit)
+			if !ok || lit.Kind != token.STRING {
+				return true
+			}
+			tv, ok := info.Types[lit]
+			if !ok || tv.Value == nil || tv.Value.Kind() != constant.String {
+				return true
+			}
+			if mm := generic.FindStringSubmatch(constant.StringVal(tv.Value)); mm != nil {
+				if _, ok := needed[mm[1]]; !ok {
+					needed[mm[1]] = ctx.Pos(lit.Pos()) + " (generic annotation)"
+				}
+			}
+			return true
+		})
+	}
+	needed["typing"] = "the typing module, used by every annotation (typing.Self, typing.Optional)"
+	// (2) methods of the builder template
+	def := regexp.MustCompile(`(?m)^\s*def ([a-z][a-z0-9_]*)\(`)
+	for _, name := range ts.names() {
+		if !strings.Contains(ts.file[name], "/templates/builders/") {
+			continue
+		}
+		walkTmpl(ts.trees[name].Root, func(n parse.Node) bool {
+			if t, ok := n.(*parse.TextNode); ok {
+				for _, mm := range def.FindAllStringSubmatch(string(t.Text), -1) {
+					if _, ok := needed[mm[1]]; !ok {
+						needed[mm[1]] = ts.posOf(ctx, name, t) + " (method defined by the builder template)"
+					}
+				}
+			}
+			return true
+		})
+	}
+	var names []string
+	for k := range needed {
+		names = append(names, k)
+	}
+	sort.Strings(names)
+	for _, k := range names {
+		r.Check(escaped[k], "kinds/python-method-names-escaped", "python.escapeFunctionName escapes "+k, token.NoPos, needed[k]+": escaped when a field has that name",
+			needed[k]+": the class body relies on `"+k+"` after the options are defined and escapeFunctionName lets a method of that name through: a field named `"+k+"` gives `def "+k+"(…)`, which shadows it for everything that follows — the builders module fails on import (TypeError: 'function' object is not subscriptable) or build() is replaced")
+	}
+	r.Count("names the body of a generated Python class relies on", len(names))
+	r.Floor("names the body of a generated Python class relies on", 8)
 }
